@@ -24,12 +24,15 @@ def toU8 (x : I32) : Byte := x.truncate 8
 
 /-! ### igris/util/hexascii.h -/
 
-/-- `(uint8_t)(c <= '9' ? c - '0' : c - 'A' + 10)`, `c` a (signed) `char`.
-Transcribed as written (lower-case letters are mis-parsed: that is property
-C07's business; C18 only needs the digits the encoders produce). -/
+/-- `(uint8_t)(c <= '9' ? c - '0' : c >= 'a' ? c - 'a' + 10 : c - 'A' + 10)`, `c` a
+(signed) `char`: the comparisons and subtractions are done on the promoted
+`int`, the result is truncated to `uint8_t` (library commit a948610 added the
+lower-case branch). -/
 def hex2half (c : Byte) : Byte :=
   let ci := sx c
-  toU8 (if ci.sle 0x39#32 then ci - 0x30#32 else ci - 0x41#32 + 10#32)
+  toU8 (if ci.sle 0x39#32 then ci - 0x30#32
+        else if (0x61#32).sle ci then ci - 0x61#32 + 10#32
+        else ci - 0x41#32 + 10#32)
 
 /-- `(char)(n < 10 ? '0' + n : 'A' - 10 + n)`, `n` a `uint8_t` -/
 def half2hex (n : Byte) : Byte :=
@@ -239,5 +242,122 @@ def urlUnsubst (c : Byte) : Byte :=
   if c == 0x5F#8 then 0x2F#8 else c
 
 def b64urlDecode (s : List Byte) : List Byte := b64Decode (s.map urlUnsubst)
+
+/-! ### memory-checked forms (fault model)
+
+The routines above compute on lists and cannot go out of range by
+construction.  The forms below keep what C keeps: a buffer with a length that
+the routine does not know, an explicit `int size`, a fixed array indexed by a
+counter, a pointer returned by `strchr` that may be NULL.  Every access
+outside the mapped bytes, a NULL `strchr` result and the overflow of an `int`
+counter is `none` ("fault").  The driver runs these forms. -/
+
+/-- the pair loop of `hexascii_decode`: `n` iterations left, `it` = read
+offset, `k` = write offset (`oit - out`), `cap` = bytes the caller mapped at
+`out`; returns the bytes written -/
+def decPairsM (cs : List Byte) (cap : Nat) : (n it k : Nat) → List Byte → Option (List Byte)
+  | 0, _, _, acc => some acc
+  | n + 1, it, k, acc =>
+    match cs[it]?, cs[it + 1]? with
+    | some hi, some lo =>
+      if k < cap then decPairsM cs cap n (it + 2) (k + 1) (acc ++ [hex2byte hi lo]) else none
+    | _, _ => none
+
+/-- `hexascii_decode(indata, size, out)`: `cs` = the bytes mapped at `indata`,
+`size` = the C `int` argument (any sign, any parity), `cap` = bytes mapped at
+`out`.  `size % 2` is C's truncating remainder (`-3 % 2 == -1`). -/
+def hexDecodeM (cs : List Byte) (size : Int) (cap : Nat) : Option (List Byte) :=
+  let size := if size.tmod 2 = 1 then size - 1 else size
+  if size ≤ 0 then some [] else decPairsM cs cap (size.toNat / 2) 0 0 []
+
+/-- `(int)str.size()`: conversion of a `size_t` to a 32-bit `int` -/
+def toInt32 (n : Nat) : Int := (BitVec.ofNat 32 n).toInt
+
+/-- `igris::hexascii_decode(std::string const&)` / `(igris::buffer const&)`:
+`ret.resize(size / 2); ::hexascii_decode(data, (int)size, &ret[0]);` -/
+def hexDecodeStrM (s : List Byte) : Option (List Byte) :=
+  let ret := List.replicate (s.length / 2) (0#8 : Byte)
+  match hexDecodeM s (toInt32 s.length) ret.length with
+  | some w => some (w ++ ret.drop w.length)
+  | none => none
+
+/-- `strchr(base64_charset, c) - base64_charset`; NULL (character not in the
+table and not the terminator) makes the subtraction undefined -/
+def strchrM (c : Byte) : Option Byte :=
+  if (charset ++ [0#8]).contains c then some (strchrIdx c) else none
+
+/-- `for (k = 0; k < 4; k++) char_array_4[k] = strchr(...) - base64_charset;`
+on the 4-slot array -/
+def mapIdxM : List Byte → Option (List Byte)
+  | [] => some []
+  | c :: cs => match strchrM c, mapIdxM cs with
+    | some v, some vs => some (v :: vs)
+    | _, _ => none
+
+/-- the decoder loop with `char_array_4` as a fixed 4-slot array `arr`, the
+counter `i`, and the `int in_` index: `char_array_4[i++] = s[in_]; in_++;
+if (i == 4) {…}`.  Faults: `i ≥ 4` at the store, NULL from `strchr`,
+`in_` leaving the range of `int`. -/
+def decLoopM : List Byte → (in_ : Nat) → (arr : List Byte) → (i : Nat) → List Byte →
+    Option (List Byte × Nat × List Byte)
+  | [], _, arr, i, ret => some (arr, i, ret)
+  | c :: rest, in_, arr, i, ret =>
+    if c == 0x3D#8 || !isBase64 c then some (arr, i, ret) else
+    if 4 ≤ i then none else
+    let arr := arr.set i c
+    let i := i + 1
+    if 2 ^ 31 ≤ in_ + 1 then none else
+    if i = 4 then
+      match mapIdxM arr with
+      | none => none
+      | some m =>
+        decLoopM rest (in_ + 1) m 0
+          (ret ++ dec3 (m.getD 0 0#8) (m.getD 1 0#8) (m.getD 2 0#8) (m.getD 3 0#8))
+    else decLoopM rest (in_ + 1) arr i ret
+
+/-- `for (j = i; j < 4; j++) char_array_4[j] = 0;` -/
+def zeroFrom (arr : List Byte) (i : Nat) : List Byte :=
+  arr.take i ++ List.replicate (arr.length - i) 0#8
+
+/-- the `if (i) {…}` tail on the array: zero-fill `[i,4)`, map all four slots,
+`for (j = 0; j < i - 1; j++) ret += char_array_3[j]` (a read of
+`char_array_3[j]` with `j ≥ 3` is a fault) -/
+def decFinishM (arr : List Byte) (i : Nat) (ret : List Byte) : Option (List Byte) :=
+  if i = 0 then some ret else
+  match mapIdxM (zeroFrom arr i) with
+  | none => none
+  | some m =>
+    let out := dec3 (m.getD 0 0#8) (m.getD 1 0#8) (m.getD 2 0#8) (m.getD 3 0#8)
+    if i - 1 ≤ out.length then some (ret ++ out.take (i - 1)) else none
+
+/-- `base64_decode`; the array starts uninitialised (any four bytes: they are
+overwritten before they are read, theorem `b64DecodeM_eq` holds for every
+initial content) -/
+def b64DecodeM (s : List Byte) (init : List Byte := [0#8, 0#8, 0#8, 0#8]) : Option (List Byte) :=
+  match decLoopM s 0 init 0 [] with
+  | none => none
+  | some (arr, i, ret) => decFinishM arr i ret
+
+def b64urlDecodeM (s : List Byte) : Option (List Byte) := b64DecodeM (s.map urlUnsubst)
+
+/-- libstdc++ `std::string::max_size()` on the 64-bit host (the harness
+prints the compiled value, op `maxsz`) -/
+def strMaxSize : Nat := 2 ^ 63 - 1
+
+/-! The only calls in the anchored files that can leave a function by an
+exception are the `std::string` growth calls: `std::length_error` when the
+requested size exceeds `max_size()` (decided before any allocation or read),
+`std::bad_alloc` otherwise.  The requested sizes, in `size_t` arithmetic: -/
+
+/-- `igris::hexascii_encode(indata, size)`: `ret.resize(size * 2)` -/
+def hexEncodeStrReq (size : Nat) : Nat := (size * 2) % 2 ^ 64
+/-- `igris::hexascii_decode(buffer)` / `(std::string)`: `ret.resize(size / 2)` -/
+def hexDecodeStrReq (size : Nat) : Nat := (size % 2 ^ 64) / 2
+/-- `base64_encode`: `outdata.reserve(((size * 8) / 6) + 2)` -/
+def b64EncodeReq (size : Nat) : Nat := ((size * 8) % 2 ^ 64 / 6 + 2) % 2 ^ 64
+
+/-- does `igris::hexascii_encode(indata, size)` throw `std::length_error`
+(before a byte is read)? -/
+def hexEncodeStrThrows (size : Nat) : Bool := strMaxSize < hexEncodeStrReq size
 
 end Igris.C18
